@@ -23,6 +23,7 @@ def step (line : String) : String :=
   | "exteq" :: t :: u :: rest => exteqLine t u rest
   | "c20" :: kind :: t :: rest => c20Line kind t rest
   | "view" :: kind :: ty :: rest => viewLine kind ty rest
+  | "v14" :: kind :: ty :: rest => v14Line kind ty rest
   | "arr" :: kind :: _ :: rest => arrLine kind rest
   | "c16" :: fam :: rest => c16Line fam rest
   | "c18" :: lay :: ty :: rest => c18Line lay ty rest
